@@ -43,7 +43,7 @@ func c09Pool(chain *vh.Chain) []*vh.Header {
 	}
 }
 
-var c09Kinds = []string{"header", "header", "header", "header", "header", bhNotFound, bhGarbage, bhBadValidate, bhWrongChain, bhNoChain, bhHang, bhReset, bhEmpty, bhUnknownCode}
+var c09Kinds = []string{"header", "header", "header", "header", "header", "header_case", bhNotFound, bhGarbage, bhBadValidate, bhWrongChain, bhNoChain, bhHang, bhReset, bhEmpty, bhUnknownCode}
 
 func genC09(t *rapid.T) C09Scenario {
 	s := C09Scenario{Trusted: rapid.Bool().Draw(t, "trusted"), Deadline: rapid.Bool().Draw(t, "deadline")}
@@ -86,7 +86,7 @@ func runC09(t *testing.T, s C09Scenario) (res Result) {
 		scripts := make([][]Behaviour, len(s.Peers))
 		for i, p := range s.Peers {
 			kind := p.Kind
-			if kind == "header" {
+			if kind == "header" || kind == "header_case" {
 				kind = bhCorrect
 			}
 			scripts[i] = []Behaviour{{Kind: kind, DelayMs: 10 * (p.Rank + 1)}}
@@ -97,8 +97,17 @@ func runC09(t *testing.T, s C09Scenario) (res Result) {
 			return
 		}
 		defer e.close()
+		sent := make([]*vh.Header, len(s.Peers))
 		for i, p := range s.Peers {
-			e.peers[i].headOverride = pool[p.Pool]
+			sent[i] = pool[p.Pool]
+			if p.Kind == "header_case" {
+				// same header under a chain id that differs only in letter case: the Exchange's own chain-id
+				// check is case-insensitive, verification against a trusted head is not
+				c := sent[i].Clone()
+				c.Chain = swapCase(c.Chain)
+				sent[i] = c.Seal()
+			}
+			e.peers[i].headOverride = sent[i]
 		}
 		dl := 60 * time.Second
 		if s.Deadline {
@@ -130,15 +139,13 @@ func runC09(t *testing.T, s C09Scenario) (res Result) {
 			}
 			a := answer{at: time.Duration(10*(p.Rank+1)) * time.Millisecond}
 			switch p.Kind {
-			case "header":
-				h := pool[p.Pool]
+			case "header", "header_case":
+				h := sent[i]
 				if s.Trusted {
-					verr := header.Verify(trustedHdr, h)
-					var ve *header.VerifyError
-					switch {
-					case verr == nil:
+					switch ok, soft := modelVerify(trustedHdr, h); {
+					case ok:
 						a.h = h
-					case errors.As(verr, &ve) && ve.SoftFailure:
+					case soft:
 						a.h, a.soft = h, true
 					}
 				} else {
@@ -226,13 +233,13 @@ func runC09(t *testing.T, s C09Scenario) (res Result) {
 		}
 		// generic safety in trusted-head mode
 		if s.Trusted && got != nil {
-			verr := header.Verify(trustedHdr, got)
-			if gerr == nil && verr != nil {
-				res.failf("nil error but the returned header %v fails Verify against the trusted head: %v", got, verr)
+			ok, soft := modelVerify(trustedHdr, got)
+			if gerr == nil && !ok {
+				res.failf("nil error but the returned header %v fails verification against the trusted head (soft=%v)", got, soft)
 				return
 			}
-			if verr != nil && !isSoftErr(verr) {
-				res.failf("returned header %v hard-fails verification against the trusted head: %v", got, verr)
+			if !ok && !soft {
+				res.failf("returned header %v hard-fails verification against the trusted head", got)
 				return
 			}
 		}
